@@ -3,7 +3,7 @@
 # Applies a seeded change to a scratch copy of /repo (never to /repo), confirms that the copy builds and passes the
 # repo's tests, and runs the check(s) against it.  Prints CAUGHT / MISSED per property.
 set -u
-dir="$1"; prop="$2"; tier="${3:-quick}"; shift; shift; shift || true
+dir=$(cd "$1" && pwd); prop="$2"; tier="${3:-quick}"; shift; shift; shift || true
 D=$(mktemp -d /tmp/seedrun.XXXXXX)
 trap 'rm -rf "$D"' EXIT
 cp -r /repo/. "$D/"
